@@ -209,6 +209,11 @@ def observe(P, post=None, max_steps=None, P_csv=None, quiet_logging=False):
                     r.postprocess()
             except SystemExit:
                 raise drive.Rejected('postprocess', env_.log_records())
+            # an accepted input can be set up again (next time point,
+            # orificing iteration): a second model from the same object
+            o['stage'] = 'setup_again'
+            drive.build_reactor(inp, write_output=False)
+            o['stage'] = 'postprocess'
         except drive.Rejected as e:
             o['stage'] = e.stage
             o['n_calc'] = hk.n['calc']
@@ -505,6 +510,22 @@ def _o_pinmodel(P, T, rng):
     P['types'][T]['PinModel'] = m
     for sp in P['power']['asm'].values():
         sp['total'] *= 0.1
+
+
+@option('pin_model_user_clad_film', needs=('nolf',))
+def _o_pinmodel_film(P, T, rng):
+    _o_pinmodel(P, T, rng)
+    P['types'][T]['PinModel']['htc_params_clad'] = [
+        float(rng.uniform(0.02, 0.03)), 0.8, float(rng.uniform(0.5, 0.8)),
+        float(rng.uniform(4.0, 7.0))]
+
+
+@option('fuel_model_user_clad_film', needs=('nolf',))
+def _o_fuel_film(P, T, rng):
+    _o_fuel(P, T, rng)
+    P['types'][T]['FuelModel']['htc_params_clad'] = [
+        float(rng.uniform(0.02, 0.03)), 0.8, 0.8,
+        float(rng.uniform(4.0, 7.0))]
 
 
 @option('dummy_pin', needs=('nolf',))
